@@ -158,11 +158,18 @@ def os_random_scripted(seed, flip_bit=None):
         _PROBE["script"] = old
 
 
+class TtyStringIO(io.StringIO):
+    """A text buffer that claims to be an interactive terminal (what a console / pty looks like to `isatty()`)."""
+
+    def isatty(self):
+        return True
+
+
 @contextlib.contextmanager
-def cli(argv, cwd=None):
+def cli(argv, cwd=None, tty=False):
     """Run code with sys.argv / stdout / stderr / cwd substituted. Yields dict with 'out','err' buffers."""
     old = (sys.argv, sys.stdout, sys.stderr, os.getcwd())
-    out, err = io.StringIO(), io.StringIO()
+    out, err = (TtyStringIO(), TtyStringIO()) if tty else (io.StringIO(), io.StringIO())
     sys.argv = ["btc_hd_wallet"] + list(argv)
     sys.stdout, sys.stderr = out, err
     if cwd:
